@@ -1123,6 +1123,10 @@ PROBES = [
     # (case, signature of the listed open finding it exhibits on the unchanged tree | None = must hold)
     ({'name': 'lazy-local'}, None),                     # F9 fixed
     ({'name': 'lazy-local-redirect'}, None),
+    ({'name': 'lazy-local-shadow', 'how': 'string'}, None),     # the file exists with other content (round-4 seed)
+    ({'name': 'lazy-local-shadow', 'how': 'file_obj'}, None),
+    ({'name': 'lazy-local-shadow', 'how': 'string', 'same_size': True}, 'lazy-local-same-size-reread'),      # F257 open
+    ({'name': 'lazy-local-shadow', 'how': 'file_obj', 'same_size': True}, 'lazy-local-same-size-reread'),
     ({'name': 'xhtml-image', 'mime': 'text/html'}, None),                  # F99 fixed
     ({'name': 'xhtml-image', 'mime': 'image/svg+xml'}, None),
     ({'name': 'svg-style-import'}, None),               # F100 fixed: must hold
